@@ -188,6 +188,11 @@ def run(ctx, res):
                               "kinScaling": [f2b(x) for x in (r1.kin[k0][1] if len(r1.kin) > k0 else [])]},
                       "stream": [f2b(r) for _, _, r in r1.normals[n0:n1]], "fuel": 200})
         meta.append((case, r1, data_val))
+        # the lens' own parameters: model (Lens.realisedKeys, theorem prior_only_own_parameters), the harness' statement of
+        # them, and what the implementation handed to kin_scaling / the prior
+        lines.append({"op": "Lens.keys", "cfg": lc.encode_cfg(lens, case["ltype"], with_prior(case, case["prior_list"])["cfg"]),
+                      "hyper": lc.encode_hyper(case["hyper"])})
+        meta.append((case, r1, "keys"))
     # lens-locality on two-lens samples
     for _ in range(ctx.n(10, 100)):
         try:
@@ -209,6 +214,15 @@ def run(ctx, res):
             res.disagree("model error %s where the implementation evaluated" % o["err"], cj)
             continue
         m = o["ok"]
+        if data_val == "keys":
+            mk = sorted(m["keys"])
+            hk = sorted(lc.own_parameters(case["cfg"], case["hyper"]))
+            ik = sorted((r1.kin[0][0] or {}).keys()) if r1.kin else None
+            if mk != hk:
+                res.disagree("own parameters of the lens: model %s, harness statement %s" % (mk, hk), cj)
+            elif ik is not None and ik != mk:
+                res.disagree("own parameters of the lens: model %s, the implementation realised %s" % (mk, ik), cj)
+            continue
         prior_m = b2f(m["prior"])
         if data_val is not None and math.isfinite(data_val):
             prior_i = r1.singles[0] - data_val
